@@ -1,5 +1,8 @@
 import DarkluaModel.C07.Model
 import DarkluaModel.Shared.Run
+import DarkluaModel.Shared.VisitorSound
+import DarkluaModel.Rules.Witness
+import DarkluaModel.C08.Thm
 /-!
 # C06 — the Luau-lowering rules preserve program behaviour: property theorems (local lemmas)
 
@@ -8,6 +11,7 @@ environments, states). Each theorem says that the node a hook of a rule model (`
 the definitions the driver executes and the harness compares with the real `Rule::process`)
 returns has EXACTLY the denotation of the node it was given.
 -/
+set_option linter.unusedSimpArgs false
 namespace DarkluaModel.C06
 open Sem DarkluaModel.Rules
 
@@ -67,5 +71,290 @@ theorem ifexpr_and_or_exact (c r e : Expr)
       simp [Res.bind, first, ht']
   | err v σ1 => simp [Res.bind]
   | timeout => simp [Res.bind]
+
+
+/-! ## whole-rule theorems through the generic lifting theorem (`Shared/VisitorSound.lean`) -/
+
+theorem hooksExact_make_assignment_local : HooksExact MakeAssignmentLocal.processor where
+  stmtNode := fun st s N call ρ k env σ => make_assignment_local_hook_exact call ρ k env st s σ
+
+/-- `make_assignment_local` as a WHOLE (every `const` of the program, in any position, closures
+included): the observable outcome — returned values, raised error, external-call trace — of every
+program is preserved, at every call level, for every number system / oracle / extern set. -/
+theorem rule_refines_make_assignment_local (b : Block) {N : NumOps} (ρ : ExtOracle N) (n : Nat)
+    (externs : List String) :
+    runProgram ρ n externs (MakeAssignmentLocal.apply b) = runProgram ρ n externs b :=
+  Visitor.runDefault_refines hooksExact_make_assignment_local b () ρ n externs
+
+theorem number_node_id (e : Expr) (s : Unit) : ConvertLuauNumber.node e s = (e, s) := by
+  cases e <;> rfl
+
+theorem hooksExact_convert_luau_number : HooksExact ConvertLuauNumber.processor where
+  node := fun e s => by
+    show EqE e (ConvertLuauNumber.node e s).1 ∧ EqT e (ConvertLuauNumber.node e s).1
+    rw [number_node_id]; exact ⟨EqE.refl _, EqT.refl _⟩
+
+/-- `convert_luau_number` as a whole preserves the observable outcome of every program (it is the
+identity on the semantic AST: literals carry their value). -/
+theorem rule_refines_convert_luau_number (b : Block) {N : NumOps} (ρ : ExtOracle N) (n : Nat)
+    (externs : List String) :
+    runProgram ρ n externs (ConvertLuauNumber.apply b) = runProgram ρ n externs b :=
+  Visitor.runDefault_refines hooksExact_convert_luau_number b () ρ n externs
+
+
+/-! ## `remove_if_expression` -/
+
+open Rules.Witness in
+/-- projection used to compare concrete evaluations in the kernel: the first returned value when it is a string -/
+def firstStr : Res unitOps (List (Val unitOps)) → Option (List UInt8)
+  | .ok (.str s :: _) _ => some s
+  | _ => none
+
+/-- the full claim: for every sound truthiness oracle, the lowered expression returns what the
+if-expression returns -/
+def ifexpr_full : Prop :=
+  ∀ (truthy : Expr → Bool),
+    (∀ r, truthy r = true → ∀ (N : NumOps) (call : CallFn N) (ρ : ExtOracle N) (k : Nat) (env : Env N) σ vs σ',
+      evalE call ρ k env r σ = .ok vs σ' → (first vs).truthy = true) →
+  ∀ (e : Expr) (N : NumOps) (call : CallFn N) (ρ : ExtOracle N) (k : Nat) (env : Env N) (σ σ' : State N)
+    (vs : List (Val N)), evalE call ρ k env e σ = .ok vs σ' →
+    ∃ σ'', evalE call ρ k env (RemoveIfExpression.processExpression truthy e) σ = .ok vs σ''
+
+/-- the witness of finding F25: `if false then "a" elseif true then "b" elseif true then "c" else "d"` -/
+def f25Witness : Expr := .ifx .false (.str [97]) [(.true, .str [98]), (.true, .str [99])] (.str [100])
+
+def strTruthy : Expr → Bool
+  | .str _ => true
+  | _ => false
+
+open Rules.Witness in
+/-- **F25**: the full claim is false — with two `elseif` branches the rule tests them in reverse
+order: the witness evaluates to `"b"`, its lowering `false and "a" or (true and "c" or (true and "b" or "d"))` to `"c"`. -/
+theorem ifexpr_full_false : ¬ ifexpr_full := by
+  intro hfull
+  have hsound : ∀ r, strTruthy r = true → ∀ (N : NumOps) (call : CallFn N) (ρ : ExtOracle N) (k : Nat) (env : Env N)
+      σ vs σ', evalE call ρ k env r σ = .ok vs σ' → (first vs).truthy = true := by
+    intro r hr N call ρ k env σ vs σ' h
+    cases r <;> simp [strTruthy] at hr
+    simp only [evalE, Res.ok.injEq] at h
+    rw [← h.1]; rfl
+  have h1 : firstStr (evalE call0 ρ0 1 env0 f25Witness σ0) = some [98] := by decide
+  have h2 : firstStr (evalE call0 ρ0 1 env0 (RemoveIfExpression.processExpression strTruthy f25Witness) σ0)
+      = some [99] := by decide
+  cases hr : evalE call0 ρ0 1 env0 f25Witness σ0 with
+  | timeout => simp [hr, firstStr] at h1
+  | err v σ1 => simp [hr, firstStr] at h1
+  | ok vs σ1 =>
+    obtain ⟨σ2, h3⟩ := hfull strTruthy hsound f25Witness unitOps call0 ρ0 1 env0 σ0 σ1 vs hr
+    rw [hr] at h1; rw [h3] at h2
+    cases vs with
+    | nil => simp [firstStr] at h1
+    | cons v rest => cases v <;> simp_all [firstStr]
+
+example : RemoveIfExpression.processExpression strTruthy f25Witness =
+    .bin .or (.bin .and .false (.str [97]))
+      (.bin .or (.bin .and .true (.str [99])) (.bin .or (.bin .and .true (.str [98])) (.str [100]))) := rfl
+
+
+/-- one `elseif` is an if-expression in the else position -/
+theorem ifx_one_elif (c t c1 t1 e : Expr) (σ : State N) :
+    evalE call ρ k env (.ifx c t [(c1, t1)] e) σ = evalE call ρ k env (.ifx c t [] (.ifx c1 t1 [] e)) σ := by
+  simp only [evalE, evalElifs]
+  cases evalE call ρ k env c σ with
+  | ok cv σ1 =>
+    simp only [Res.bind]
+    by_cases ht : (first cv).truthy = true
+    · simp [ht]
+    · simp only [ht, Bool.false_eq_true, if_false]
+      cases evalE call ρ k env c1 σ1 with
+      | ok cv1 σ2 =>
+        simp only [Res.bind]
+        by_cases ht1 : (first cv1).truthy = true
+        · simp only [ht1, if_true]
+          cases evalE call ρ k env t1 σ2 <;> simp [Res.bind, first]
+        · simp only [ht1, Bool.false_eq_true, if_false]
+          cases evalE call ρ k env e σ2 <;> simp [Res.bind, first]
+      | err v σ2 => simp [Res.bind]
+      | timeout => simp [Res.bind]
+  | err v σ1 => simp [Res.bind]
+  | timeout => simp [Res.bind]
+
+/-- the else position of an if-expression is a congruence -/
+theorem ifx_congr_else (c t e e' : Expr) (h : ∀ σ, evalE call ρ k env e' σ = evalE call ρ k env e σ) (σ : State N) :
+    evalE call ρ k env (.ifx c t [] e') σ = evalE call ρ k env (.ifx c t [] e) σ := by
+  simp only [evalE, evalElifs, h]
+
+/-- **`remove_if_expression`, partial** (hypothesis `H`: at most one `elseif` — F25 — and every branch
+result known truthy, so that the `and`/`or` encoding is chosen): the hook's output has EXACTLY the
+denotation of the if-expression — conditions tested in order, each sub-expression evaluated at most
+once, result truncated to one value — in every context. `hst`/`hsts` (a branch result whose
+evaluation succeeds is truthy) is what C08's `truthy_sound` provides: see `ifexpr_partial_c08`. -/
+theorem ifexpr_partial (truthy : Expr → Bool)
+    (c t : Expr) (elifs : List (Expr × Expr)) (e : Expr) (hlen : elifs.length ≤ 1) (ht : truthy t = true)
+    (hts : ∀ p ∈ elifs, truthy p.2 = true)
+    (hst : ∀ σ vs σ', evalE call ρ k env t σ = .ok vs σ' → (first vs).truthy = true)
+    (hsts : ∀ p ∈ elifs, ∀ σ vs σ', evalE call ρ k env p.2 σ = .ok vs σ' → (first vs).truthy = true)
+    (σ : State N) :
+    evalE call ρ k env (RemoveIfExpression.processExpression truthy (.ifx c t elifs e)) σ
+      = evalE call ρ k env (.ifx c t elifs e) σ := by
+  match elifs, hlen, hts, hsts with
+  | [], _, _, _ =>
+    simp only [RemoveIfExpression.processExpression, RemoveIfExpression.foldBranches,
+      RemoveIfExpression.convertIfBranch, ht, if_true]
+    exact ifexpr_and_or_exact call ρ k env c t e hst σ
+  | [(c1, t1)], _, hts, hsts =>
+    have ht1 : truthy t1 = true := hts (c1, t1) (by simp)
+    simp only [RemoveIfExpression.processExpression, RemoveIfExpression.foldBranches,
+      RemoveIfExpression.convertIfBranch, ht, ht1, if_true]
+    rw [ifx_one_elif, ifexpr_and_or_exact call ρ k env c t _ hst σ]
+    exact ifx_congr_else call ρ k env c t _ _
+      (fun σ' => ifexpr_and_or_exact call ρ k env c1 t1 e (hsts (c1, t1) (by simp)) σ') σ
+
+/-- the verdict the driver computes: `Evaluator::evaluate(e).is_truthy().unwrap_or_default()` -/
+def evalTruthy (E : Evaluator.EvalOps N) (e : Expr) : Bool := (Evaluator.evaluate E e).isTruthy == some true
+
+/-- the same with the Lean model of darklua's static evaluator as the truthiness oracle (the function
+the driver runs), inside C08's hypothesis `h8` for the branch results (outside it the evaluator itself
+is wrong: C08 findings). -/
+theorem ifexpr_partial_c08 (E : Evaluator.EvalOps N) (A : C08.Agree N E)
+    (c t : Expr) (elifs : List (Expr × Expr)) (e : Expr) (hlen : elifs.length ≤ 1)
+    (ht : evalTruthy E t = true) (hts : ∀ p ∈ elifs, evalTruthy E p.2 = true)
+    (h8t : C08.h8 E t = true) (h8ts : ∀ p ∈ elifs, C08.h8 E p.2 = true) (σ : State N) :
+    evalE call ρ k env (RemoveIfExpression.processExpression (evalTruthy E) (.ifx c t elifs e)) σ
+      = evalE call ρ k env (.ifx c t elifs e) σ :=
+  ifexpr_partial call ρ k env (evalTruthy E) c t elifs e hlen ht hts
+    (fun σ vs σ' h => C08.truthy_sound A call ρ k env t σ σ' vs true h8t (by simpa [evalTruthy] using ht) h)
+    (fun p hp σ vs σ' h =>
+      C08.truthy_sound A call ρ k env p.2 σ σ' vs true (h8ts p hp) (by simpa [evalTruthy] using hts p hp) h) σ
+
+-- non-vacuity: one `elseif`, string results
+example : RemoveIfExpression.processExpression strTruthy (.ifx (.var "a") (.str [97]) [(.var "b", .str [98])] (.var "c"))
+    = .bin .or (.bin .and (.var "a") (.str [97])) (.bin .or (.bin .and (.var "b") (.str [98])) (.var "c")) := rfl
+
+
+/-! ### the table-boxed encoding `(c and {r} or {e})[1]` -/
+
+/-- results whose evaluation neither allocates nor depends on the heap of tables -/
+def isAtom : Expr → Bool
+  | .nil | .true | .false | .num _ | .str _ | .var _ => true
+  | _ => false
+
+theorem atom_eval (a : Expr) (ha : isAtom a = true) :
+    ∃ f : State N → Val N, (∀ σ, evalE call ρ k env a σ = .ok [f σ] σ) ∧
+      (∀ (σ : State N) T, f { σ with tables := T } = f σ) := by
+  cases a <;> simp [isAtom] at ha
+  · exact ⟨fun _ => .nil, fun _ => rfl, fun _ _ => rfl⟩
+  · exact ⟨fun _ => .bool true, fun _ => rfl, fun _ _ => rfl⟩
+  · exact ⟨fun _ => .bool false, fun _ => rfl, fun _ _ => rfl⟩
+  · rename_i b; exact ⟨fun _ => .num (N.ofBits b), fun _ => rfl, fun _ _ => rfl⟩
+  · rename_i b; exact ⟨fun _ => .str b, fun _ => rfl, fun _ _ => rfl⟩
+  · rename_i n; exact ⟨fun σ => lookupVar env n σ, fun _ => rfl, fun _ _ => rfl⟩
+
+theorem wrap_atom (a : Expr) (ha : isAtom a = true) : RemoveIfExpression.wrapInTable a = .table [.pos a] := by
+  cases a <;> simp [isAtom] at ha <;> rfl
+
+theorem listSet_append_last {α : Type} (xs : List α) (a b : α) : listSet (xs ++ [a]) xs.length b = xs ++ [b] := by
+  induction xs with
+  | nil => rfl
+  | cons x xs ih => simp [listSet, ih]
+
+theorem first_singleton (v : Val N) : first [v] = v := rfl
+
+/-- evaluating `{a}[1]`-style boxes: allocate, store, read back -/
+theorem tbl_truthy (t : Nat) : (Val.tbl t : Val N).truthy = true := rfl
+
+theorem box_read (hone : N.eq (N.ofNat 1) (N.ofBits 0x3FF0000000000000) = true) (v : Val N) (σ : State N) (d : Nat) :
+    ∃ tb, indexVal call ρ (d + 1) (.tbl σ.tables.length) (.num (N.ofBits 0x3FF0000000000000))
+        ((σ.allocTable { entries := [], mt := none }).2.rawSet σ.tables.length (.num (N.ofNat 1)) v)
+      = .ok v { σ with tables := σ.tables ++ [tb] } := by
+  cases v with
+  | nil =>
+    refine ⟨{ entries := [], mt := none }, ?_⟩
+    simp only [indexVal, State.allocTable, State.rawSet, State.rawGet, State.getTable, State.setTable, rawSetEntries,
+      rawGetEntries, listSet_append_last, State.metamethod, State.metaOf, rawEq, hone, List.getElem?_append_right,
+      Nat.le_refl, Nat.sub_self, List.getElem?_cons_zero, Option.getD_some, List.length_append, if_true]
+  | bool x =>
+    refine ⟨{ entries := [(.num (N.ofNat 1), .bool x)], mt := none }, ?_⟩
+    simp only [indexVal, State.allocTable, State.rawSet, State.rawGet, State.getTable, State.setTable, rawSetEntries,
+      rawGetEntries, listSet_append_last, State.metamethod, State.metaOf, rawEq, hone, List.getElem?_append_right,
+      Nat.le_refl, Nat.sub_self, List.getElem?_cons_zero, Option.getD_some, List.length_append, if_true]
+  | num x =>
+    refine ⟨{ entries := [(.num (N.ofNat 1), .num x)], mt := none }, ?_⟩
+    simp only [indexVal, State.allocTable, State.rawSet, State.rawGet, State.getTable, State.setTable, rawSetEntries,
+      rawGetEntries, listSet_append_last, State.metamethod, State.metaOf, rawEq, hone, List.getElem?_append_right,
+      Nat.le_refl, Nat.sub_self, List.getElem?_cons_zero, Option.getD_some, List.length_append, if_true]
+  | str x =>
+    refine ⟨{ entries := [(.num (N.ofNat 1), .str x)], mt := none }, ?_⟩
+    simp only [indexVal, State.allocTable, State.rawSet, State.rawGet, State.getTable, State.setTable, rawSetEntries,
+      rawGetEntries, listSet_append_last, State.metamethod, State.metaOf, rawEq, hone, List.getElem?_append_right,
+      Nat.le_refl, Nat.sub_self, List.getElem?_cons_zero, Option.getD_some, List.length_append, if_true]
+  | tbl x =>
+    refine ⟨{ entries := [(.num (N.ofNat 1), .tbl x)], mt := none }, ?_⟩
+    simp only [indexVal, State.allocTable, State.rawSet, State.rawGet, State.getTable, State.setTable, rawSetEntries,
+      rawGetEntries, listSet_append_last, State.metamethod, State.metaOf, rawEq, hone, List.getElem?_append_right,
+      Nat.le_refl, Nat.sub_self, List.getElem?_cons_zero, Option.getD_some, List.length_append, if_true]
+  | fn x =>
+    refine ⟨{ entries := [(.num (N.ofNat 1), .fn x)], mt := none }, ?_⟩
+    simp only [indexVal, State.allocTable, State.rawSet, State.rawGet, State.getTable, State.setTable, rawSetEntries,
+      rawGetEntries, listSet_append_last, State.metamethod, State.metaOf, rawEq, hone, List.getElem?_append_right,
+      Nat.le_refl, Nat.sub_self, List.getElem?_cons_zero, Option.getD_some, List.length_append, if_true]
+  | builtin x =>
+    refine ⟨{ entries := [(.num (N.ofNat 1), .builtin x)], mt := none }, ?_⟩
+    simp only [indexVal, State.allocTable, State.rawSet, State.rawGet, State.getTable, State.setTable, rawSetEntries,
+      rawGetEntries, listSet_append_last, State.metamethod, State.metaOf, rawEq, hone, List.getElem?_append_right,
+      Nat.le_refl, Nat.sub_self, List.getElem?_cons_zero, Option.getD_some, List.length_append, if_true]
+
+/-- **the table-boxed encoding on atomic branches** (the case it exists for: `nil` / `false` /
+variables as results): `(c and {r} or {e})[1]` returns exactly the value `if c then r else e` returns,
+after evaluating `c` once; the final state is the if-expression's plus ONE unreachable table (the box):
+exact up to that allocation. Needs a call-back budget `k ≥ 1` (the lowered form indexes a table) and
+`1 == 0x3FF0000000000000` in the number system. For branches that allocate themselves the table ids
+shift: that case needs the allocation-insensitive relation (`ifexpr_boxed_general`). -/
+theorem ifexpr_boxed_atoms (hone : N.eq (N.ofNat 1) (N.ofBits 0x3FF0000000000000) = true) (d : Nat)
+    (c r e : Expr) (hr : isAtom r = true) (he : isAtom e = true) (σ : State N) (cv : List (Val N)) (σ1 : State N)
+    (hc : evalE call ρ (d + 1) env c σ = .ok cv σ1) :
+    ∃ v tb, evalE call ρ (d + 1) env (.ifx c r [] e) σ = .ok [v] σ1 ∧
+      evalE call ρ (d + 1) env
+        (.index (.paren (.bin .or (.bin .and c (RemoveIfExpression.wrapInTable r)) (RemoveIfExpression.wrapInTable e)))
+          numOne) σ = .ok [v] { σ1 with tables := σ1.tables ++ [tb] } := by
+  obtain ⟨fr, hfr, hfr'⟩ := atom_eval call ρ (d + 1) env r hr
+  obtain ⟨fe, hfe, hfe'⟩ := atom_eval call ρ (d + 1) env e he
+  rw [wrap_atom r hr, wrap_atom e he]
+  by_cases ht : (first cv).truthy = true
+  · obtain ⟨tb, hb⟩ := box_read call ρ hone (fr σ1) σ1 d
+    refine ⟨fr σ1, tb, ?_, ?_⟩
+    · simp only [evalE, hc, Res.bind, ht, if_true, hfr, first_singleton]
+    · have h1 := hfr (σ1.allocTable { entries := [], mt := none }).2
+      have h2 : fr (σ1.allocTable { entries := [], mt := none }).2 = fr σ1 := hfr' σ1 _
+      simp only [evalE, evalEntries, hc, Res.bind, ht, if_true, h1, h2, setMany, first_singleton, numOne, tbl_truthy]
+      rw [show (σ1.allocTable { entries := [], mt := none }).1 = σ1.tables.length from rfl, hb]
+  · have ht' : (first cv).truthy = false := by simpa using ht
+    obtain ⟨tb, hb⟩ := box_read call ρ hone (fe σ1) σ1 d
+    refine ⟨fe σ1, tb, ?_, ?_⟩
+    · simp only [evalE, evalElifs, hc, Res.bind, ht', Bool.false_eq_true, if_false, hfe, first_singleton]
+    · have h1 := hfe (σ1.allocTable { entries := [], mt := none }).2
+      have h2 : fe (σ1.allocTable { entries := [], mt := none }).2 = fe σ1 := hfe' σ1 _
+      simp only [evalE, evalEntries, hc, Res.bind, ht', Bool.false_eq_true, if_false, h1, h2, setMany,
+        first_singleton, numOne, tbl_truthy, if_true]
+      rw [show (σ1.allocTable { entries := [], mt := none }).1 = σ1.tables.length from rfl, hb]
+
+/-- … and when the condition fails or runs out of budget, so does the lowered form, identically. -/
+theorem ifexpr_boxed_cond_fails (c tr te : Expr) (σ : State N) (d : Nat)
+    (hc : ∀ cv σ1, evalE call ρ (d + 1) env c σ ≠ .ok cv σ1) :
+    evalE call ρ (d + 1) env (.index (.paren (.bin .or (.bin .and c tr) te)) numOne) σ
+      = (evalE call ρ (d + 1) env c σ).bind fun _ σ' => .ok [] σ' := by
+  cases h : evalE call ρ (d + 1) env c σ with
+  | ok cv σ1 => exact absurd h (hc cv σ1)
+  | err x σ1 => simp [evalE, h, Res.bind]
+  | timeout => simp [evalE, h, Res.bind]
+
+/-- the general statement (branches that may allocate): equal observable outcome of whole programs;
+to be proved with the allocation-insensitive relation (in progress elsewhere) — NOT proved here,
+covered by the execution oracle. -/
+def ifexpr_boxed_general : Prop :=
+  ∀ (truthy : Expr → Bool) (b : Block) (N : NumOps) (ρ : ExtOracle N) (n : Nat) (externs : List String),
+    (∀ r, truthy r = false) →
+    runProgram ρ n externs (RemoveIfExpression.apply truthy b) = runProgram ρ n externs b ∨
+      runProgram ρ n externs b = .timeout
 
 end DarkluaModel.C06
